@@ -39,13 +39,13 @@ int main(int argc, char** argv) {
   int thorough = argc > 1 && !strcmp(argv[1], "thorough");
   va_install();
   va_cap = (size_t)64 << 20;
-  static uint64_t g[400];
+  static uint64_t g[800];
   int n = 0;
   g[n++] = 0;
   for (int k = 0; k < 64; k++) for (int d = -1; d <= 1; d++) g[n++] = ((uint64_t)1 << k) + (uint64_t)d;
   g[n++] = ~0ull; g[n++] = ~0ull - 1; g[n++] = 0xffffffffull; g[n++] = 0x100000000ull; g[n++] = 3037000499ull; g[n++] = 3037000500ull;
   g[n++] = 4294967295ull * 2; g[n++] = 6074000999ull; g[n++] = 0x5555555555555555ull; g[n++] = 0xaaaaaaaaaaaaaaaaull;
-  for (int k = 0; k < (thorough ? 120 : 10); k++) g[n++] = vh_rand() >> vh_randn(64);
+  for (int k = 0; k < (thorough ? 300 : 10); k++) g[n++] = vh_rand() >> vh_randn(64);
   for (int i = 0; i < n; i++) for (int j = 0; j < n; j++) mu(g[i], g[j]);
   /* end to end: element counts through the public constructors and the decoder */
   static const uint64_t counts[] = {0, 1, 7, 1ull << 20, (1ull << 23) - 1, 1ull << 23, (1ull << 32), (1ull << 59), (1ull << 60) - 1, 1ull << 60, (1ull << 60) + 1,
